@@ -7,7 +7,7 @@ register-to-register ALU operations, device reads and writes, `yield` / `sleep`,
 `if`/`else` on a comparison, `while` on a comparison, `while True`.  `comp` lays the code out exactly as
 `CompilerPassGatherCode` does, including the label lines (which occupy a line and execute as no-ops):
 
-    if c(a,b): S else: T      b‹neg c› a b ELSE ; S ; j END ; ELSE: ; T ; END:
+    if c(a,b): S else: T      b‹neg c› a b ELSE ; S ; j END ; ELSE: ; T ; END:      (`if x:` is `beqz x ELSE`)
     if c(a,b): S              b‹neg c› a b ELSE ; S ; ELSE: ; END:
     while c(a,b): S           LOOP: ; b‹neg c› a b END ; S ; j LOOP ; END:
     while True: S             LOOP: ; S ; j LOOP ; END:
@@ -29,10 +29,11 @@ inductive Stmt (V : Type) where
   | sleep (a : Opnd Reg V)
   | skip
   | seq (s t : Stmt V)
-  /-- `neg` is the condition suffix of the emitted branch (taken when the source condition `c` is false) -/
-  | ite (c neg : String) (a b : Opnd Reg V) (s t : Stmt V)
-  | ifThen (c neg : String) (a b : Opnd Reg V) (s : Stmt V)
-  | while (c neg : String) (a b : Opnd Reg V) (body : Stmt V)
+  /-- `neg` is the condition suffix of the emitted branch (taken when the source condition `c` is false); `args` are the
+      compared operands: two for `if a < b`, one for `if x` (`c = "nez"`, emitted `beqz x`) -/
+  | ite (c neg : String) (args : List (Opnd Reg V)) (s t : Stmt V)
+  | ifThen (c neg : String) (args : List (Opnd Reg V)) (s : Stmt V)
+  | while (c neg : String) (args : List (Opnd Reg V)) (body : Stmt V)
   | loop (body : Stmt V)
   /-- `break` / `continue` of the innermost enclosing `while` / `loop` -/
   | brk
@@ -73,16 +74,16 @@ def exec : Nat → Stmt V → SSt V → Res V
       match exec n p s with
       | .ok .norm s' => exec n q s'
       | r => r                                  -- `break` / `continue` / out of fuel: the rest is skipped
-  | n, .ite c _ a b p q, s =>
-      if sem.cond c [a.eval s.regs, b.eval s.regs] then exec n p s else exec n q s
-  | n, .ifThen c _ a b p, s =>
-      if sem.cond c [a.eval s.regs, b.eval s.regs] then exec n p s else .done s
-  | 0, .while _ _ _ _ _, s => .timeout s
-  | n + 1, .while c neg a b body, s =>
-      if sem.cond c [a.eval s.regs, b.eval s.regs] then
+  | n, .ite c _ args p q, s =>
+      if sem.cond c (evalArgs s.regs args) then exec n p s else exec n q s
+  | n, .ifThen c _ args p, s =>
+      if sem.cond c (evalArgs s.regs args) then exec n p s else .done s
+  | 0, .while _ _ _ _, s => .timeout s
+  | n + 1, .while c neg args body, s =>
+      if sem.cond c (evalArgs s.regs args) then
         match exec (n + 1) body s with
         | .ok .brk s' => .done s'
-        | .ok _ s' => exec n (.while c neg a b body) s'
+        | .ok _ s' => exec n (.while c neg args body) s'
         | .timeout s' => .timeout s'
       else .done s
   | 0, .loop _, s => .timeout s
@@ -103,9 +104,9 @@ def size {V : Type} : Stmt V → Nat
   | .sleep _ => 1
   | .skip => 0
   | .seq p q => size p + size q
-  | .ite _ _ _ _ p q => size p + size q + 4
-  | .ifThen _ _ _ _ p => size p + 3
-  | .while _ _ _ _ body => size body + 4
+  | .ite _ _ _ p q => size p + size q + 4
+  | .ifThen _ _ _ p => size p + 3
+  | .while _ _ _ body => size body + 4
   | .loop body => size body + 3
   | .brk => 1
   | .cont => 1
@@ -124,32 +125,32 @@ def comp {V : Type} (lit : Nat → V) : Stmt V → Nat → Nat → Nat → List 
   | .brk, _, _, bl => [⟨.jmp, none, [.num (lit bl)]⟩]
   | .cont, _, cl, _ => [⟨.jmp, none, [.num (lit cl)]⟩]
   | .seq p q, base, cl, bl => comp lit p base cl bl ++ comp lit q (base + size p) cl bl
-  | .ite _ neg a b p q, base, cl, bl =>
-      [⟨.br neg, none, [a, b, .num (lit (base + size p + 2))]⟩] ++ comp lit p (base + 1) cl bl ++
+  | .ite _ neg args p q, base, cl, bl =>
+      [⟨.br neg, none, args ++ [.num (lit (base + size p + 2))]⟩] ++ comp lit p (base + 1) cl bl ++
       [⟨.jmp, none, [.num (lit (base + size p + size q + 3))]⟩, nopI] ++ comp lit q (base + size p + 3) cl bl ++ [nopI]
-  | .ifThen _ neg a b p, base, cl, bl =>
-      [⟨.br neg, none, [a, b, .num (lit (base + size p + 1))]⟩] ++ comp lit p (base + 1) cl bl ++ [nopI, nopI]
-  | .while _ neg a b body, base, _, _ =>
-      [nopI, ⟨.br neg, none, [a, b, .num (lit (base + size body + 3))]⟩] ++ comp lit body (base + 2) base (base + size body + 3) ++
+  | .ifThen _ neg args p, base, cl, bl =>
+      [⟨.br neg, none, args ++ [.num (lit (base + size p + 1))]⟩] ++ comp lit p (base + 1) cl bl ++ [nopI, nopI]
+  | .while _ neg args body, base, _, _ =>
+      [nopI, ⟨.br neg, none, args ++ [.num (lit (base + size body + 3))]⟩] ++ comp lit body (base + 2) base (base + size body + 3) ++
       [⟨.jmp, none, [.num (lit base)]⟩, nopI]
   | .loop body, base, _, _ =>
       [nopI] ++ comp lit body (base + 1) base (base + size body + 2) ++ [⟨.jmp, none, [.num (lit base)]⟩, nopI]
 
-/-- every branch of the program uses a suffix that negates its condition (on the two operands a branch compares) -/
+/-- every branch of the program uses a suffix that negates its condition (on as many values as the branch compares) -/
 def NegOk {V : Type} (sem : Sem V) : Stmt V → Prop
   | .seq p q => NegOk sem p ∧ NegOk sem q
-  | .ite c neg _ _ p q => (∀ x y, sem.cond neg [x, y] = !sem.cond c [x, y]) ∧ NegOk sem p ∧ NegOk sem q
-  | .ifThen c neg _ _ p => (∀ x y, sem.cond neg [x, y] = !sem.cond c [x, y]) ∧ NegOk sem p
-  | .while c neg _ _ body => (∀ x y, sem.cond neg [x, y] = !sem.cond c [x, y]) ∧ NegOk sem body
+  | .ite c neg args p q => (∀ vals : List V, vals.length = args.length → sem.cond neg vals = !sem.cond c vals) ∧ NegOk sem p ∧ NegOk sem q
+  | .ifThen c neg args p => (∀ vals : List V, vals.length = args.length → sem.cond neg vals = !sem.cond c vals) ∧ NegOk sem p
+  | .while c neg args body => (∀ vals : List V, vals.length = args.length → sem.cond neg vals = !sem.cond c vals) ∧ NegOk sem body
   | .loop body => NegOk sem body
   | _ => True
 
-/-- executable form of `NegOk` against a table of (condition, branch suffix) pairs -/
-def pairsOk {V : Type} (pairs : List (String × String)) : Stmt V → Bool
+/-- executable form of `NegOk` against a table of (condition, branch suffix, number of compared operands) -/
+def pairsOk {V : Type} (pairs : List (String × String × Nat)) : Stmt V → Bool
   | .seq p q => pairsOk pairs p && pairsOk pairs q
-  | .ite c neg _ _ p q => pairs.contains (c, neg) && pairsOk pairs p && pairsOk pairs q
-  | .ifThen c neg _ _ p => pairs.contains (c, neg) && pairsOk pairs p
-  | .while c neg _ _ body => pairs.contains (c, neg) && pairsOk pairs body
+  | .ite c neg args p q => pairs.contains (c, neg, args.length) && pairsOk pairs p && pairsOk pairs q
+  | .ifThen c neg args p => pairs.contains (c, neg, args.length) && pairsOk pairs p
+  | .while c neg args body => pairs.contains (c, neg, args.length) && pairsOk pairs body
   | .loop body => pairsOk pairs body
   | _ => true
 
